@@ -126,3 +126,10 @@ impl BackingStoreLoad for SimDisk {
         Ok(self.data[off + 8..end].to_vec())
     }
 }
+
+/// Loaders are passed by value in the v1 interface: a mutable reference is a loader too.
+impl BackingStoreLoad for &mut SimDisk {
+    type R = Vec<u8>;
+
+    fn load_raw(&mut self, location: Reference) -> LoadResult<Self::R> { (**self).load_raw(location) }
+}
